@@ -1,4 +1,4 @@
-import DmrVerif.Lemmas.MbxmlG
+import DmrVerif.Lemmas.MbxmlX
 
 /-!
 # C14 — MBXML variable-length integers and floats decode to what was encoded
@@ -225,6 +225,67 @@ theorem longitude_roundtrip (m : Nat) (h : m < 360000000) :
   rw [beNat_beBytes 4 _ (by simp; omega)]
   exact lon_round m
 
+/-! ## latitude / longitude on EVERY double, the pole window, info-time injectivity (hardening round) -/
+
+/-- the one special case of `write_latitude`, `math.isclose(value, 90.0)` evaluated in double arithmetic as
+CPython does, only ever accepts doubles that `round(value, 6)` sends to 90.000000 anyway: the window of the
+special case lies inside the rounding cell of the constant (a wider window — e.g. `rel_tol=1e-6` — would
+write values as the pole that the XML view must show as 89.9999xx) -/
+theorem pole_window_inside_rounding_cell (num exp : Nat) (h : isclose90 num exp = true) :
+    microOf num exp = 90000000 :=
+  isclose90_window num exp h
+
+/-- away from the pole cell the writer on an arbitrary double is the writer on the value rounded to
+micro-degrees (the function the grid theorems are about) -/
+theorem writeLatD_eq_writeLat (num exp : Nat) (h : microOf num exp ≠ 90000000) :
+    writeLatD num exp = writeLat (microOf num exp : Int) := by
+  have hc : isclose90 num exp = false := by
+    cases hb : isclose90 num exp with
+    | false => rfl
+    | true => exact absurd (isclose90_window num exp hb) h
+  have hm : ¬ ((microOf num exp : Int) = 90000000) := by omega
+  simp only [writeLatD, writeLat, hc, hm, if_false, Bool.false_eq_true]
+
+/-- latitude, every non-negative double `num / 2^exp` that rounds into 0 … 90 degrees (not only multiples
+of 10^-6, and whether or not the pole special case fires): four octets that the XML view decodes to the
+value correctly rounded to six decimals -/
+theorem latitude_any_double (num exp : Nat) (h : microOf num exp ≤ 90000000) :
+    ∃ bs, writeLatD num exp = .ok bs ∧ bs.length = 4 ∧ decodeLat bs = microOf num exp := by
+  cases hc : isclose90 num exp with
+  | true =>
+    have hm := isclose90_window num exp hc
+    refine ⟨beBytes 4 2147483647, ?_, rfl, ?_⟩
+    · simp only [writeLatD, hc, if_true]
+      exact toBytes_nat 4 2147483647 (by simp)
+    · unfold decodeLat
+      rw [beNat_beBytes 4 _ (by decide), hm]
+      exact lat_round_90
+  | false =>
+    refine ⟨beBytes 4 (microOf num exp * 16777216 / 703125), ?_, beBytes_length _ 4, ?_⟩
+    · simp only [writeLatD, hc, if_false, Bool.false_eq_true]
+      exact latQuot_ok _ h
+    · unfold decodeLat
+      rw [beNat_beBytes 4 _ (by simp; omega)]
+      exact lat_round _
+
+/-- longitude, every non-negative double that rounds into 0 … 359.999999 degrees -/
+theorem longitude_any_double (num exp : Nat) (h : microOf num exp < 360000000) :
+    ∃ bs, writeLonD num exp = .ok bs ∧ bs.length = 4 ∧ decodeLon bs = microOf num exp := by
+  refine ⟨beBytes 4 (microOf num exp * 8388608 / 703125), lonQuot_ok _ h, beBytes_length _ 4, ?_⟩
+  unfold decodeLon
+  rw [beNat_beBytes 4 _ (by simp; omega)]
+  exact lon_round _
+
+/-- two different valid date-times are never written as the same five octets (a writer that moves a
+wall-clock time of a skipped local hour onto the next hour is not injective) -/
+theorem infotime_injective (a b : DateTime) (ha : a.valid = true) (hb : b.valid = true)
+    (h : writeInfotime a = writeInfotime b) : a = b := by
+  obtain ⟨x, hx, _, dx⟩ := infotime_roundtrip a ha
+  obtain ⟨y, hy, _, dy⟩ := infotime_roundtrip b hb
+  rw [hx, hy] at h
+  have hxy : x = y := by simpa using h
+  rw [← dx, ← dy, hxy]
+
 /-! ## the hypotheses are satisfiable by non-trivial values (and the historical failures are covered) -/
 
 -- 128 and 16384 (multiples of 128, mis-encoded before the repair), with a prefix and trailing octets
@@ -247,5 +308,16 @@ example : ∃ bs r, writeSF true 5 6 1 = .ok bs ∧ readSF (bs ++ []) 0 = .ok r 
 example : (⟨2003, 6, 30, 7, 30, 0⟩ : DateTime).valid = true := by decide
 example : (⟨2096, 2, 29, 23, 59, 59⟩ : DateTime).valid = true := by decide
 example : (⟨2099, 2, 29, 0, 0, 0⟩ : DateTime).valid = false := by decide
+-- 1/128 degree = 0.0078125 is an exact rounding tie: shown as 0.007812 (ties to even)
+example : microOf 1 7 = 7812 := by decide
+-- 90 − 2^-24 (not a multiple of 10^-6) is inside the isclose window: written as the pole, shown as 90.0
+example : isclose90 (90 * 2 ^ 24 - 1) 24 = true := by decide +kernel
+example : ∃ bs, writeLatD (90 * 2 ^ 24 - 1) 24 = .ok bs ∧ bs.length = 4 ∧ decodeLat bs = microOf (90 * 2 ^ 24 - 1) 24 :=
+  latitude_any_double _ _ (by decide)
+-- 89.9999 (= 89999900 micro-degrees, given as the nearest double) is NOT inside the window
+example : isclose90 3166589969557671 45 = false := by decide +kernel
+-- the skipped hour of 2021-03-28 in CET and the hour after it are different octets; last Sunday of March 2021
+example : writeInfotime ⟨2021, 3, 28, 2, 30, 0⟩ ≠ writeInfotime ⟨2021, 3, 28, 3, 30, 0⟩ := by decide
+example : ruleDay 2021 3 5 0 = 28 ∧ weekdaySun 2021 3 28 = 0 := by decide
 
 end Dmr.C14
